@@ -77,6 +77,9 @@ func build(s Spec) *engine.Scenario {
 		w := world.NewTCP(keys, s.Cache, T)
 		w.Start()
 		tgt := world.StartTarget("93.184.216.34:80", func(t *world.Target, i int, c *vnet.TCPConn) {
+			if s.Kind == "reflect" {
+				c.Write(world.Pattern(9, 120)) // so that the server has something to say
+			}
 			if s.Target == "rst" {
 				io.ReadFull(c, make([]byte, 1))
 				vrt.Sleep(2 * time.Second)
@@ -144,8 +147,10 @@ func build(s Spec) *engine.Scenario {
 		case "replay":
 			probe = wire
 			authenticates = false // second presentation
+		case "reflect":
+			authenticates = false // the server's own output (ciphers whose salt can carry the server's mark)
 		}
-		if s.Kind == "replay" {
+		if s.Kind == "replay" || s.Kind == "reflect" {
 			// first presentation: a complete, accepted connection
 			c0 := world.Dial("203.0.113.9:0")
 			c0.Send(wire, 0)
@@ -153,6 +158,13 @@ func build(s Spec) *engine.Scenario {
 			c0.ReadAll()
 			c0.C.Close()
 			vrt.WaitIdle()
+			if s.Kind == "reflect" {
+				// what the server said on that connection, sent back to it as a new connection
+				probe = append([]byte(nil), c0.Got...)
+				if s.N > 0 && s.N < len(probe) {
+					probe = probe[:s.N]
+				}
+			}
 		}
 		t0 := vrt.NowQuiet()
 		cl := world.Dial("203.0.113.7:0")
@@ -217,7 +229,7 @@ func build(s Spec) *engine.Scenario {
 			return "generic", true, fs
 		}
 		expectConnects := 0
-		if s.Kind == "replay" {
+		if s.Kind == "replay" || s.Kind == "reflect" {
 			expectConnects = 1
 		}
 		switch {
@@ -589,6 +601,15 @@ func grid(tier string) []Spec {
 				}
 				for _, cache := range []int{1, 100} {
 					out = append(out, Spec{Cipher: cipher, Keys: nk, Kind: "replay", Client: cl, Cache: cache})
+				}
+				if cipher != 3 {
+					// the server's own output reflected (whole, and cut after 60 bytes); aes-128-gcm's
+					// 16-byte salt cannot carry the mark
+					for _, cache := range []int{0, 100} {
+						for _, n := range []int{0, 60} {
+							out = append(out, Spec{Cipher: cipher, Keys: nk, Kind: "reflect", N: n, Client: cl, Cache: cache})
+						}
+					}
 				}
 				if nk == 1 {
 					// the address header split over two chunks and never completed
